@@ -46,6 +46,25 @@ def limited(bounds, n, g, dt):
     return L, F, src
 
 
+def limited_total(bounds, n, g, dt):
+    """As `limited`, then the documented intent of the correction ("the total number of particles leaving a bin should be less than
+    or equal to the number of particles in the bin"): a class that loses through both faces (dissolution below, growth above) more
+    than it holds has both out-fluxes scaled by content / (total loss).  Returns (fluxes, scaled_faces)."""
+    L, F, src = limited(bounds, n, g, dt)
+    L = list(L)
+    N = len(n)
+    scaled = set()
+    for i in range(N):
+        out_lo = -L[i] if (src[i] == i and L[i] < 0) else 0.0
+        out_hi = L[i + 1] if (src[i + 1] == i and L[i + 1] > 0) else 0.0
+        if out_lo > 0 and out_hi > 0 and (out_lo + out_hi) * dt > float(n[i]):
+            sc = float(n[i]) / ((out_lo + out_hi) * dt)
+            L[i] *= sc
+            L[i + 1] *= sc
+            scaled.update((i, i + 1))
+    return L, scaled
+
+
 def containing_class(bounds, r):
     """Index i with bounds[i] <= r < bounds[i+1]; 'below' / 'above' otherwise."""
     if r < bounds[0]:
